@@ -275,7 +275,12 @@ OpLegal(S, op, inCb) ==
     [] op.a = "new" -> ~Alloc(S, op.e)
     [] op.a = "free" -> Alloc(S, op.e) /\ ("FIN" \in S.ev[op.e].fl => S.ev[op.e].fl \cap {"ACT", "LATER"} = {})
                         /\ (inCb = op.e => Closure(op.e) # "signal")
-    [] op.a \in {"add", "del", "rmt", "act", "prio"} -> Alloc(S, op.e)
+    [] op.a \in {"add", "del", "rmt", "prio"} -> Alloc(S, op.e)
+    \* Named exclusion: event_active() on a signal event from inside that event's own callback.  While the
+    \* ncalls loop of event_signal_closure runs, the loop counter is written back into ev_ncalls after every
+    \* invocation, so the call count of such a re-activation is clobbered (observed: the re-activated event is
+    \* popped with 0 calls).  The documented model says nothing about this use; it is not generated.
+    [] op.a = "act" -> Alloc(S, op.e) /\ ~(inCb = op.e /\ Kind(op.e) = "sig")
     \* event_active_later_ is an internal entry point without a FINALIZING guard
     [] op.a = "later" -> Alloc(S, op.e) /\ "FIN" \notin S.ev[op.e].fl
     [] op.a = "addc" -> Alloc(S, op.e) /\ S.ctdur[op.q] >= 0
